@@ -86,6 +86,11 @@ def main_loop(handler, per_job_timeout: int = 60):
     line per job to argv[2].  A job exceeding the timeout gives
     {'timeout': True}; an unexpected harness exception aborts the worker."""
     jobs = json.loads(Path(sys.argv[1]).read_text(encoding='utf-8'))
+    # a runaway computation (e.g. a closure that never terminates) must end as an
+    # observation, not take the machine down
+    import resource
+    cap = int(os.environ.get('WN_VERIF_MEMCAP', str(3 * 1024 ** 3)))
+    resource.setrlimit(resource.RLIMIT_AS, (cap, cap))
     signal.signal(signal.SIGALRM, _alarm)
     warnings.simplefilter('ignore')
     with open(sys.argv[2], 'w', encoding='utf-8') as out:
